@@ -132,7 +132,7 @@ def case_dedup(seed, out, spec, wd):
             for vid, obj in reached.items():
                 if id(obj) in by_obj and by_obj[id(obj)] != vid:
                     probs.add('identity:object-recorded-twice', 'one %s object is recorded under ids %s and %s' % (
-                        type(obj).__name__, by_obj[id(obj)], vid))
+                        snapcheck.type_name(obj), by_obj[id(obj)], vid))
                 by_obj[id(obj)] = vid
             results = [w for w in snap.watches if w.source == 'WATCH']
             if [w.expression for w in results] != wl:
@@ -274,12 +274,12 @@ def case_capture(seed, out, spec, wd):
 
 def _skel(v, depth=0):
     if depth > 2:
-        return type(v).__name__
+        return snapcheck.type_name(v)
     if type(v) in (list, tuple):
-        return [type(v).__name__] + [_skel(x, depth + 1) for x in v[:4]]
+        return [snapcheck.type_name(v)] + [_skel(x, depth + 1) for x in v[:4]]
     if type(v) is dict:
         return {str(k): _skel(x, depth + 1) for k, x in list(v.items())[:4]}
-    return type(v).__name__
+    return snapcheck.type_name(v)
 
 
 def run_shard(spec, out):
